@@ -592,14 +592,16 @@ def work_prog(task: tuple) -> dict:
                         {'family': 'layout-x-gate', 'text': L.ptext(p)})
         return res
     if kind == 'b2':
-        _, layout, depth, first, small, seed = task
+        _, layout, prefix, small, seed = task
         res = new_result('statement-sequences')
         decls = layout_decls(layout, 'last')
         A = seq_alphabet(layout, seed, small)
-        for rest in itertools.product(A, repeat=depth - 1):
-            p = (decls, (), (A[first],) + rest)
+        head = tuple(A[i] for i in prefix)
+        p = None
+        for last in A:
+            p = (decls, (), head + (last,))
             judge_prog(res, p, 'seq')
-        if first == len(A) // 2:
+        if p is not None and all(i == len(A) // 2 for i in prefix):
             res['samples'].append(
                 {'family': 'statement-sequences', 'text': L.ptext(p)})
         return res
@@ -727,12 +729,12 @@ def work_tr(task: tuple) -> dict:
             res['nontrivial'] += rt_nontrivial(n, ops)
         return res
     if kind == 'tr2':
-        _, lib, n, i, tag, excluded, seed = task
+        _, lib, n, i, tag, excluded, seed, chunk, nch = task
         keys = unitary_keys(tuple(excluded))
         if tag == 'reduced':
             keys = [k for k in keys if k in REDUCED_RT]
         P = L.placed_ops(n, keys)
-        for second in P:
+        for second in P[chunk::nch]:
             ops = seq_param_variants([P[i], second], seed, False)[0]
             judge_tr(res, lib, n, ops)
             res['distinct'] += 1
